@@ -217,9 +217,7 @@ def run_cases(func, cases, setup=None, setup_args=(), procs=None, chunk=None, ti
     if len(chunks) == 1 or procs <= 1:
         res = [_run_chunk(a) for a in args]
     else:
-        ctx = multiprocessing.get_context('fork')
-        with ctx.Pool(min(procs, len(chunks))) as pool:
-            res = pool.map(_run_chunk, args, chunksize=1)
+        res = farm._pool_map(_run_chunk, args, min(procs, len(chunks)), 1)
     out = []
     for r in res:
         out.extend(r)
